@@ -313,6 +313,35 @@ def traceJump (tpType1 : Bool) (nact : Nat) (dt m0 : K) (mv : List (K × K)) (xs
   let px := jumpSum Scalar.zero (jumpSources tpType1 nact mv) * (dt / m0)
   xs.map (fun x => x + px)
 
+/-! jump step and centre-of-mass step of WHFast itself (integrator_whfast.c:441-498 `reb_whfast_jump_step`,
+    :547-552 `reb_whfast_com_step`), one Cartesian component.  Active particles 1 … N_active-1 come as
+    (m, v, x) with `m = r->particles[i].m`, `v, x` from `p_jh`; test particles N_active … N_real-1 as `x`.
+    (`N_active = N_real` when `N_active == -1` or `testparticle_type == 1`: the caller passes everything as active.)
+    Jacobi and barycentric coordinates: nothing to be done. -/
+
+/-- democratic heliocentric: `px += m * p_h[i].vx` over the active particles -/
+def whJumpSumDH : K → List (K × K × K) → K
+  | px, [] => px
+  | px, (m, v, _) :: r => whJumpSumDH (px + m * v) r
+
+/-- WHDS: `px += m * p_h[i].vx / (m0+m)` -/
+def whJumpSumWHDS (m0 : K) : K → List (K × K × K) → K
+  | px, [] => px
+  | px, (m, v, _) :: r => whJumpSumWHDS m0 (px + m * v / (m0 + m)) r
+
+/-- DH: every particle i ≥ 1 (active and test): `p_h[i].x += _dt * (px/m0)`; returns (active x, test x) -/
+def whfastJumpDH (dt m0 : K) (act : List (K × K × K)) (tst : List K) : List K × List K :=
+  let px := whJumpSumDH Scalar.zero act
+  (act.map (fun a => a.2.2 + dt * (px / m0)), tst.map (fun x => x + dt * (px / m0)))
+
+/-- WHDS: active `x += _dt * (px - (m * vx / (m0+m)))`, test `x += _dt * px` -/
+def whfastJumpWHDS (dt m0 : K) (act : List (K × K × K)) (tst : List K) : List K × List K :=
+  let px := whJumpSumWHDS m0 Scalar.zero act
+  (act.map (fun a => a.2.2 + dt * (px - a.1 * a.2.1 / (m0 + a.1))), tst.map (fun x => x + dt * px))
+
+/-- `p_j[0].x += _dt*p_j[0].vx` -/
+def whfastComStep (dt x0 v0 : K) : K := x0 + dt * v0
+
 end mass
 
 /-! ## comparisons and the two unbounded loops (`[ScalarO K]`) -/
